@@ -106,6 +106,9 @@ func (g *Generator) handleIdent(paramType *ast.Ident, name *ast.Ident, file *ast
 
 func (g *Generator) handleMapType(name *ast.Ident, methodName string, httpMethod string) {
 	if httpMethod == http.MethodGet || httpMethod == http.MethodDelete {
+		if _, ok := g.data.QueryDictMap[methodName]; ok {
+			logx.Fatalf("ambiguous query map binding of method %s", methodName)
+		}
 		g.data.QueryDictMap[methodName] = name.Name
 	} else {
 		//todo: error
